@@ -13,6 +13,14 @@
 //!        that make the update_fail_htlc LN_MAX_MSG_LEN-1 / exactly LN_MAX_MSG_LEN / +1 bytes, with attribution data and
 //!        from a failing node without it), relayed by 1..N hops; answer = lengths, attribution data kept per relay,
 //!        wire lengths, SHA-256 of the final packet / attribution data, decoded (hop, code, data, hold times)
+//!   payload <variant> <nf> (<field> <hex|none>)* <nt> (<type> <hex>)*  → <payload bytes> inc=1
+//!        real: the hop payload `build_onion_payloads` serializes (hook); op = what was ASKED (amounts, cltv, scid, secret,
+//!        metadata, keysend, invoice_request, blinded-hop data, custom TLVs); model = the encoder GENERATED from msgs.rs
+//!   customnew <n> (<type> <hex>)*  → ok … | err          real: public RecipientCustomTlvs::new
+//!   payloaddec <payload> <bp 0|1> <fwd|recv|na> <show invreq>  → kind=… amt=… custom=…
+//!        real: what that hop's node learns from peel_payment_onion (PendingHTLCInfo) on the real onion
+//!   blinded section: real BlindedPaymentPath::new / one_hop recipients (0..3 blinded forwarding nodes), keysend,
+//!        invoice_request, custom TLV types drawn below / between / above 77_777 and 5482373484 (odd and even)
 //! ECDH and ephemeral-key blinding are TRUSTED: the ephemeral keys stay on the Rust side, the
 //! model receives the per-hop shared secrets.
 use bitcoin::hashes::hmac::{Hmac, HmacEngine};
@@ -254,6 +262,245 @@ fn boundary_section(ctx: &Ctx, rng: &mut Rng, rec: &mut Rec, thorough: bool) {
 	}
 }
 
+/// HighZeroBytesDroppedBigSize: big-endian without leading zero bytes
+fn tu(x: u64) -> Vec<u8> { let b = x.to_be_bytes(); let i = b.iter().position(|&v| v != 0).unwrap_or(8); b[i..].to_vec() }
+
+fn read_bigsize(b: &[u8]) -> Option<(u64, &[u8])> {
+	let (&x, rest) = b.split_first()?;
+	let w = match x { 0..=0xfc => return Some((x as u64, rest)), 0xfd => 2, 0xfe => 4, _ => 8 };
+	if rest.len() < w { return None; }
+	let mut v = 0u64; for y in &rest[..w] { v = (v << 8) | *y as u64; }
+	Some((v, &rest[w..]))
+}
+
+/// the (type, value) records of a length-prefixed hop payload, as they are on the wire
+fn payload_records(p: &[u8]) -> Option<Vec<(u64, Vec<u8>)>> {
+	let (len, mut rest) = read_bigsize(p)?;
+	if rest.len() as u64 != len { return None; }
+	let mut out = vec![];
+	while !rest.is_empty() {
+		let (t, r1) = read_bigsize(rest)?; let (l, r2) = read_bigsize(r1)?;
+		if (r2.len() as u64) < l { return None; }
+		out.push((t, r2[..l as usize].to_vec())); rest = &r2[l as usize..];
+	}
+	Some(out)
+}
+
+fn payload_op(variant: &str, fields: &[(&str, Option<Vec<u8>>)], tlvs: &[(u64, Vec<u8>)]) -> String {
+	let mut op = format!("payload {} {}", variant, fields.len());
+	for (n, v) in fields { op.push_str(&format!(" {} {}", n, opt_hex(v.as_deref()))); }
+	op.push_str(&format!(" {}", tlvs.len()));
+	for (t, v) in tlvs { op.push_str(&format!(" {} {}", t, hex(v))); }
+	op
+}
+
+fn show_tlvs(t: &[(u64, Vec<u8>)]) -> String { if t.is_empty() { "none".into() } else { t.iter().map(|(t, v)| format!("{}:{}", t, hex(v))).collect::<Vec<_>>().join(",") } }
+
+/// implementation oracle on the bytes of one hop payload: TLV types strictly increasing
+fn check_payload_order(rec: &mut Rec, what: &str, payload: &[u8]) {
+	match payload_records(payload) {
+		None => rec.oracle_fail(format!("{}: hop payload is not a well-framed TLV stream: {}", what, hex(payload))),
+		Some(r) => { let ts: Vec<u64> = r.iter().map(|x| x.0).collect(); if ts.windows(2).any(|w| w[0] >= w[1]) { rec.oracle_fail(format!("{}: final payload TLVs not strictly increasing: {:?}", what, ts)); } },
+	}
+}
+
+/// custom TLV types around the fixed record types 77_777 (invoice_request) and 5482373484 (keysend), odd and even
+fn draw_custom_tlvs(rng: &mut Rng, allow_invalid: bool) -> Vec<(u64, Vec<u8>)> {
+	let n = match rng.below(6) { 0 => 0, 1 => 1, 2 | 3 => 2, 4 => 3, _ => 4 + rng.below(3) } as usize;
+	let mut v: Vec<(u64, Vec<u8>)> = vec![];
+	for _ in 0..n {
+		let t = match rng.below(if allow_invalid { 13 } else { 11 }) {
+			0 | 1 => 65536 + rng.below(12_241),                                        // below 77_777
+			2 => *rng.pick(&[77_773u64, 77_774, 77_775, 77_776, 77_778, 77_779, 77_780, 77_781]),
+			3 | 4 => rng.range(77_782, 5_482_373_480),                                 // between
+			5 | 6 => *rng.pick(&[5_482_373_481u64, 5_482_373_482, 5_482_373_483, 5_482_373_485, 5_482_373_486, 5_482_373_487, 5_482_373_488]),
+			7 | 8 => rng.range(5_482_373_489, 1 << 40),                                // above
+			9 => u64::MAX - rng.below(4),
+			10 => (1u64 << 32) + rng.below(8),
+			11 => *rng.pick(&[77_777u64, 5_482_373_484, 65_535, 0, 7]),                // reserved / below the custom range
+			_ => v.first().map(|x| x.0).unwrap_or(77_777),                             // repeated type
+		};
+		let l = rng.below(20) as usize;
+		v.push((t, rng.bytes(l)));
+	}
+	// user order is arbitrary
+	for i in (1..v.len()).rev() { let j = rng.below(i as u64 + 1) as usize; v.swap(i, j); }
+	v
+}
+
+/// `RecipientCustomTlvs::new` on `raw` (real vs model), returns the accepted set
+fn custom_new(rec: &mut Rec, raw: Vec<(u64, Vec<u8>)>) -> Option<RecipientCustomTlvs> {
+	let mut op = format!("customnew {}", raw.len()); for (t, v) in &raw { op.push_str(&format!(" {} {}", t, hex(v))); }
+	let res = RecipientCustomTlvs::new(raw.clone()).ok();
+	let bad = raw.iter().any(|(t, _)| *t < 65536 || *t == 77_777 || *t == 5_482_373_484) || { let mut ts: Vec<u64> = raw.iter().map(|x| x.0).collect(); ts.sort(); ts.windows(2).any(|w| w[0] == w[1]) };
+	if res.is_some() == bad { rec.oracle_fail(format!("RecipientCustomTlvs::new {} the custom TLV types {:?}", if bad { "accepted" } else { "rejected" }, raw.iter().map(|x| x.0).collect::<Vec<_>>())); }
+	rec.case(&op, &match &res { Some(c) => format!("ok {}", show_tlvs(c.as_slice())), None => "err".into() }, if res.is_some() { "payload:customnew-ok" } else { "payload:customnew-err" }, true);
+	res
+}
+
+fn next_blinding_point(ctx: &Ctx, node: usize, bp: &PublicKey) -> PublicKey {
+	let ss = ctx.kms[node].ecdh(Recipient::Node, bp, None).unwrap().secret_bytes();
+	let mut e = Sha256::engine(); e.input(&bp.serialize()); e.input(&ss);
+	let f = Sha256::from_engine(e).to_byte_array();
+	bp.mul_tweak(&ctx.secp, &bitcoin::secp256k1::Scalar::from_be_bytes(f).unwrap()).unwrap()
+}
+
+/// Payments to BLINDED recipients: real blinded paths, real onion, every hop (incl. the blinded ones) peels with its own keys.
+fn blinded_section(ctx: &Ctx, rng: &mut Rng, rec: &mut Rec, thorough: bool, scale: u64) {
+	use lightning::blinded_path::payment::{BlindedPaymentPath, Bolt12RefundContext, ForwardTlvs, PaymentConstraints, PaymentContext, PaymentForwardNode, PaymentRelay, ReceiveTlvs};
+	use lightning::ln::channelmanager::PaymentId;
+	use lightning::ln::inbound_payment::ExpandedKey;
+	use lightning::offers::nonce::Nonce;
+	use lightning::offers::offer::OfferBuilder;
+	use lightning::routing::router::BlindedTail;
+	use lightning::types::features::BlindedHopFeatures;
+	use lightning::util::ser::Writeable;
+	let min_delta = lightning::ln::channelmanager::MIN_CLTV_EXPIRY_DELTA as u32;
+	let n_routes = (if thorough { 4000 } else { 260 }) * scale;
+	for r in 0..n_routes {
+		let u = 1 + rng.below(3) as usize;                 // unblinded hops; the last one is the introduction node
+		let b = rng.below(4) as usize;                     // blinded FORWARDING nodes (0: one-hop blinded path, the recipient is the introduction node)
+		let n = u + b;                                     // onion hops
+		let mut order: Vec<usize> = (0..MAX_NODES).collect();
+		for i in 0..n { let j = i + rng.below((MAX_NODES - i) as u64) as usize; order.swap(i, j); }
+		order.truncate(n);
+		let height = rng.range(1000, 800_000) as u32;
+		let final_value = match rng.below(4) { 0 => rng.range(1, 255), 1 => rng.range(256, 70_000), 2 => rng.range(1 << 24, 1 << 36), _ => rng.range(1, 5_000_000) };
+		let total = if rng.chance(1, 3) { final_value + draw_amount(rng) } else { final_value };
+		let excess = if rng.chance(1, 2) { 0 } else { rng.below(60) as u32 };
+		let min_final = rng.range(60, 400) as u16;
+		let secret = PaymentSecret(rng.bytes32());
+		let constraints = PaymentConstraints { max_cltv_expiry: height + 1_000_000, htlc_minimum_msat: 1 };
+		// ---- the recipient builds the blinded path (real constructors) --------------------------------------
+		let recipient = order[n - 1];
+		let fwd: Vec<PaymentForwardNode> = (0..b).map(|t| PaymentForwardNode {
+			tlvs: ForwardTlvs { short_channel_id: rng.next() | 1, payment_relay: PaymentRelay { cltv_expiry_delta: (min_delta + rng.below(40) as u32) as u16, fee_proportional_millionths: 0, fee_base_msat: 0 },
+				payment_constraints: constraints, features: BlindedHopFeatures::empty(), next_blinding_override: None },
+			node_id: ctx.ids[order[u - 1 + t]], htlc_maximum_msat: u64::MAX }).collect();
+		let payee_tlvs = ReceiveTlvs { payment_secret: secret, payment_constraints: constraints, payment_context: PaymentContext::Bolt12Refund(Bolt12RefundContext { payment_metadata: None }) };
+		let bp = if b == 0 && rng.chance(1, 2) { BlindedPaymentPath::one_hop(ctx.ids[recipient], ctx.kms[recipient].get_receive_auth_key(), payee_tlvs, min_final, &ctx.kms[recipient], &ctx.secp) }
+			else { BlindedPaymentPath::new(&fwd, ctx.ids[recipient], ctx.kms[recipient].get_receive_auth_key(), payee_tlvs, u64::MAX, min_final, &ctx.kms[recipient], &ctx.secp) };
+		let bp = match bp { Ok(x) => x, Err(()) => { rec.discarded += 1; continue; } };
+		if bp.blinded_hops().len() != b + 1 { rec.oracle_fail(format!("blinded path of {} forwarding nodes has {} hops", b, bp.blinded_hops().len())); continue; }
+		// ---- the sender's path ---------------------------------------------------------------------------------
+		let mut hops = vec![];
+		for i in 0..u {
+			let last = i == u - 1;
+			hops.push(RouteHop { pubkey: ctx.ids[order[i]], node_features: NodeFeatures::empty(), short_channel_id: (rng.next() | 1) ^ ((i as u64) << 56), channel_features: ChannelFeatures::empty(),
+				fee_msat: if last { bp.payinfo.fee_base_msat as u64 } else { draw_amount(rng) % 1_000_000 }, cltv_expiry_delta: if last { bp.payinfo.cltv_expiry_delta as u32 + excess } else { min_delta + rng.below(60) as u32 }, maybe_announced_channel: true });
+		}
+		let path = Path { hops, blinded_tail: Some(BlindedTail { trampoline_hops: vec![], hops: bp.blinded_hops().to_vec(), blinding_point: bp.blinding_point(), excess_final_cltv_expiry_delta: excess, final_value_msat: final_value }) };
+		// ---- what the sender wants the recipient to get --------------------------------------------------------
+		let keysend = if rng.chance(1, 2) { Some(PaymentPreimage(rng.bytes32())) } else { None };
+		let hash = match &keysend { Some(p) => PaymentHash(Sha256::hash(&p.0).to_byte_array()), None => PaymentHash(rng.bytes32()) };
+		let invreq = if rng.chance(1, 2) {
+			let ek = ExpandedKey::new(rng.bytes32()); let nb = rng.bytes(16);
+			OfferBuilder::new(ctx.ids[recipient]).amount_msats(1 + rng.below(1 << 20)).build().ok()
+				.and_then(|o| o.request_invoice(&ek, Nonce::try_from(&nb[..]).unwrap(), &ctx.secp, PaymentId(rng.bytes32())).ok().and_then(|bld| bld.build_and_sign().ok()))
+		} else { None };
+		let mut rof = RecipientOnionFields::spontaneous_empty(total);
+		let custom = custom_new(rec, draw_custom_tlvs(rng, r % 7 == 3));
+		let custom_vec: Vec<(u64, Vec<u8>)> = custom.as_ref().map(|c| c.as_slice().to_vec()).unwrap_or_default();
+		if let Some(ct) = custom { rof = rof.with_custom_tlvs(ct); }
+		let what = format!("blinded route {} ({} unblinded hops, {} blinded forwarding nodes, keysend {}, invoice_request {}, custom TLV types {:?})", r, u, b, keysend.is_some(), invreq.is_some(), custom_vec.iter().map(|x| x.0).collect::<Vec<_>>());
+		let mut sk = rng.bytes32(); sk[0] &= 0x7f; if sk == [0; 32] { sk[31] = 1; }
+		let session = SecretKey::from_slice(&sk).unwrap(); let seed = rng.bytes32();
+		// expected amounts / expiries arriving at every onion hop
+		let mut in_amt = vec![final_value; n]; let mut in_cltv = vec![0u32; n];
+		in_cltv[u - 1] = height + path.hops[u - 1].cltv_expiry_delta;
+		for t in 0..b { in_cltv[u + t] = in_cltv[u - 1 + t] - fwd[t].tlvs.payment_relay.cltv_expiry_delta as u32; }
+		in_amt[u - 1] = final_value + path.hops[u - 1].fee_msat;
+		for i in (0..u - 1).rev() { in_amt[i] = in_amt[i + 1] + path.hops[i].fee_msat; in_cltv[i] = in_cltv[i + 1] + path.hops[i].cltv_expiry_delta; }
+		// ---- payloads: op = what was asked, answer = the bytes the real encoder produced -----------------------
+		let invreq_bytes = invreq.as_ref().map(|i| i.encode());
+		let final_op = {
+			let bh = &bp.blinded_hops()[b];
+			payload_op("onion.BlindedReceive", &[("sender_intended_htlc_amt_msat", Some(tu(final_value))), ("total_msat", Some(tu(total))), ("cltv_expiry_height", Some(tu((height + excess) as u64))),
+				("encrypted_tlvs", Some(bh.encrypted_payload.clone())), ("intro_node_blinding_point", if b == 0 { Some(bp.blinding_point().serialize().to_vec()) } else { None }),
+				("keysend_preimage", keysend.map(|p| p.0.to_vec())), ("invoice_request", invreq_bytes.clone())], &custom_vec)
+		};
+		let payloads = match guarded(AssertUnwindSafe(|| vh::payloads_with_invoice_request(&path, &rof, height, &keysend, invreq.as_ref()))) {
+			Err(p) => { rec.oracle_fail(format!("sender panicked while building the onion payloads ({}): {}", what, p)); rec.case(&final_op, &format!("panic {}", p), "payload:panic", true); continue; },
+			Ok(Err(e)) => { rec.oracle_fail(format!("build_onion_payloads refused {}: {:?}", what, e)); continue; },
+			Ok(Ok((pl, first_amt, first_cltv))) => { if first_amt != in_amt[0] || first_cltv != in_cltv[0] { rec.oracle_fail(format!("first-hop amount/cltv {}/{} expected {}/{} ({})", first_amt, first_cltv, in_amt[0], in_cltv[0], what)); } pl },
+		};
+		if payloads.len() != n { rec.oracle_fail(format!("{} payloads for {} onion hops ({})", payloads.len(), n, what)); continue; }
+		for j in 0..n {
+			check_payload_order(rec, &format!("{} hop {}", what, j), &payloads[j]);
+			let (op, class) = if j < u - 1 {
+				(payload_op("onion.Forward", &[("short_channel_id", Some(path.hops[j + 1].short_channel_id.to_be_bytes().to_vec())), ("amt_to_forward", Some(tu(in_amt[j + 1]))), ("outgoing_cltv_value", Some(tu(in_cltv[j + 1] as u64)))], &[]), "payload:forward")
+			} else if j < n - 1 {
+				(payload_op("onion.BlindedForward", &[("encrypted_tlvs", Some(bp.blinded_hops()[j - (u - 1)].encrypted_payload.clone())), ("intro_node_blinding_point", if j == u - 1 { Some(bp.blinding_point().serialize().to_vec()) } else { None })], &[]), "payload:blinded-forward")
+			} else { (final_op.clone(), if keysend.is_some() && invreq.is_some() { "payload:blinded-receive:keysend+invreq" } else if keysend.is_some() { "payload:blinded-receive:keysend" } else if invreq.is_some() { "payload:blinded-receive:invreq" } else { "payload:blinded-receive:plain" }) };
+			rec.case(&op, &format!("{} inc=1", hex(&payloads[j])), class, true);
+		}
+		// which side of the fixed types the custom TLVs fall on (coverage)
+		if let Some(mx) = custom_vec.iter().map(|x| x.0).max() {
+			let side = if mx > 5_482_373_484 { "above-keysend" } else if mx > 77_777 { "between" } else { "below-invreq" };
+			*rec.classes.entry(format!("payload:blinded-custom-max:{}:{}{}", side, if keysend.is_some() { "k" } else { "" }, if invreq.is_some() { "i" } else { "" })).or_insert(0) += 1;
+		}
+		// ---- the onion itself ------------------------------------------------------------------------------------
+		let onion = match guarded(AssertUnwindSafe(|| create_payment_onion(&ctx.secp, &path, &session, &rof, height, &hash, &keysend, invreq.as_ref(), seed))) {
+			Err(p) => { rec.oracle_fail(format!("sender panicked while building the onion ({}): {}", what, p)); continue; },
+			Ok(Err(e)) => { let tot: usize = payloads.iter().map(|x| x.len() + 32).sum(); if tot <= L { rec.oracle_fail(format!("create_payment_onion refused {} although the payloads fit: {:?}", what, e)); } *rec.classes.entry("real-only:blinded-oversize".into()).or_insert(0) += 1; continue; },
+			Ok(Ok((o, _, _))) => o,
+		};
+		let ss = vh::shared_secrets(&ctx.secp, &path, &session);
+		let mut bop = format!("build std {} {} {}", hex(&seed), hex(&hash.0), n);
+		for i in 0..n { bop.push_str(&format!(" {} {}", hex(&ss[i]), hex(&payloads[i]))); }
+		rec.case(&bop, &format!("{} {}", hex(&onion.hop_data), hex(&onion.hmac)), "build:blinded", true);
+		// ---- every hop peels with its own node key -----------------------------------------------------------------
+		let mut cur = onion.clone(); let mut blinding: Option<PublicKey> = None;
+		for j in 0..n {
+			let last = j == n - 1;
+			let msg = UpdateAddHTLC { channel_id: ChannelId([0; 32]), htlc_id: 0, amount_msat: in_amt[j], payment_hash: hash, cltv_expiry: in_cltv[j], skimmed_fee_msat: None, onion_routing_packet: cur.clone(), blinding_point: blinding, hold_htlc: None, accountable: None };
+			let cur_height = if last { in_cltv[j] - 55 } else { in_cltv[j + 1] - 10 };
+			let res = guarded(AssertUnwindSafe(|| peel_payment_onion(&msg, &ctx.kms[order[j]], &NullLogger, &ctx.secp, cur_height, false).map_err(|e| format!("{} ({})", reason_name(&e.reason), e.msg))));
+			let dop = format!("payloaddec {} {} {} {}", hex(&payloads[j]), blinding.is_some() as u8, if j < u - 1 { "na" } else if last { "recv" } else { "fwd" }, (last && keysend.is_some()) as u8);
+			let info = match res {
+				Err(p) => { rec.oracle_fail(format!("hop {} panicked while decoding its payload ({}): {}", j, what, p)); rec.case(&dop, &format!("panic {}", p), "payloaddec:panic", true); break; },
+				Ok(Err(e)) => { rec.oracle_fail(format!("{} could not decode a payload the sender built (error {}): hop {} of {}, TLV types {:?} ({})", if last { "recipient" } else { "hop" }, e, j, n, payload_records(&payloads[j]).map(|r| r.iter().map(|x| x.0).collect::<Vec<_>>()), what)); rec.case(&dop, &format!("err {}", e.split(' ').next().unwrap_or("")), "payloaddec:err", true); break; },
+				Ok(Ok(i)) => i,
+			};
+			match &info.routing {
+				PendingHTLCRouting::Forward { onion_packet, short_channel_id, blinded, .. } => {
+					if last { rec.oracle_fail(format!("recipient of {} forwarded", what)); break; }
+					if j < u - 1 {
+						if blinded.is_some() || *short_channel_id != path.hops[j + 1].short_channel_id || info.outgoing_amt_msat != in_amt[j + 1] || info.outgoing_cltv_value != in_cltv[j + 1] { rec.oracle_fail(format!("hop {} of {} got scid/amt/cltv {}/{}/{} expected {}/{}/{}", j, what, short_channel_id, info.outgoing_amt_msat, info.outgoing_cltv_value, path.hops[j + 1].short_channel_id, in_amt[j + 1], in_cltv[j + 1])); }
+						rec.case(&dop, &format!("kind=forward amt={} cltv={} scid={}", info.outgoing_amt_msat, info.outgoing_cltv_value, short_channel_id), "payloaddec:forward", true);
+					} else {
+						let t = j - (u - 1);
+						let bf = match blinded { Some(x) => x, None => { rec.oracle_fail(format!("blinded hop {} of {} forwarded as an unblinded hop", j, what)); break; } };
+						if *short_channel_id != fwd[t].tlvs.short_channel_id || info.outgoing_amt_msat != in_amt[j + 1] || info.outgoing_cltv_value != in_cltv[j + 1] { rec.oracle_fail(format!("blinded hop {} of {} got scid/amt/cltv {}/{}/{} expected {}/{}/{}", j, what, short_channel_id, info.outgoing_amt_msat, info.outgoing_cltv_value, fwd[t].tlvs.short_channel_id, in_amt[j + 1], in_cltv[j + 1])); }
+						rec.case(&dop, "kind=blindedForward", "payloaddec:blinded-forward", true);
+						blinding = Some(bf.next_blinding_override.unwrap_or_else(|| next_blinding_point(ctx, order[j], &bf.inbound_blinding_point)));
+					}
+					if onion_packet.hop_data.len() != L { rec.oracle_fail(format!("forwarded packet size {} at hop {} of {}", onion_packet.hop_data.len(), j, what)); }
+					cur = onion_packet.clone();
+				},
+				PendingHTLCRouting::Receive { payment_data, custom_tlvs, payment_metadata, .. } => {
+					if !last { rec.oracle_fail(format!("hop {} of {} thinks it is final", j, what)); break; }
+					if keysend.is_some() { rec.oracle_fail(format!("keysend preimage lost: {}", what)); }
+					if payment_data.payment_secret != secret || payment_data.total_msat != total || payment_metadata.is_some() || info.outgoing_amt_msat != final_value || info.outgoing_cltv_value != height + excess { rec.oracle_fail(format!("blinded recipient got amt/cltv/total {}/{}/{} expected {}/{}/{} ({})", info.outgoing_amt_msat, info.outgoing_cltv_value, payment_data.total_msat, final_value, height + excess, total, what)); }
+					if *custom_tlvs != custom_vec { rec.oracle_fail(format!("decoded custom TLVs {:?} != requested {:?} ({})", custom_tlvs.iter().map(|x| x.0).collect::<Vec<_>>(), custom_vec.iter().map(|x| x.0).collect::<Vec<_>>(), what)); }
+					rec.case(&dop, &format!("kind=blindedReceive amt={} cltv={} total={} keysend=none invreq=hidden custom={}", info.outgoing_amt_msat, info.outgoing_cltv_value, payment_data.total_msat, show_tlvs(custom_tlvs)), "payloaddec:blinded-receive", true);
+				},
+				PendingHTLCRouting::ReceiveKeysend { payment_data, payment_preimage, custom_tlvs, invoice_request, .. } => {
+					if !last { rec.oracle_fail(format!("hop {} of {} thinks it is final", j, what)); break; }
+					if Some(*payment_preimage) != keysend { rec.oracle_fail(format!("keysend preimage changed: {}", what)); }
+					let pd_ok = payment_data.as_ref().map_or(false, |d| d.payment_secret == secret && d.total_msat == total);
+					if !pd_ok || info.outgoing_amt_msat != final_value || info.outgoing_cltv_value != height + excess { rec.oracle_fail(format!("blinded keysend recipient got amt/cltv {}/{} expected {}/{} or wrong payment data ({})", info.outgoing_amt_msat, info.outgoing_cltv_value, final_value, height + excess, what)); }
+					if invoice_request.as_ref().map(|i| i.encode()) != invreq_bytes { rec.oracle_fail(format!("invoice_request {} ({})", if invoice_request.is_some() { "changed" } else { "lost" }, what)); }
+					if *custom_tlvs != custom_vec { rec.oracle_fail(format!("decoded custom TLVs {:?} != requested {:?} ({})", custom_tlvs.iter().map(|x| x.0).collect::<Vec<_>>(), custom_vec.iter().map(|x| x.0).collect::<Vec<_>>(), what)); }
+					rec.case(&dop, &format!("kind=blindedReceive amt={} cltv={} total={} keysend={} invreq={} custom={}", info.outgoing_amt_msat, info.outgoing_cltv_value, payment_data.as_ref().map(|d| d.total_msat.to_string()).unwrap_or("none".into()), hex(&payment_preimage.0),
+						invoice_request.as_ref().map(|i| hex(&Sha256::hash(&i.encode()).to_byte_array())).unwrap_or("none".into()), show_tlvs(custom_tlvs)), "payloaddec:blinded-receive-keysend", true);
+				},
+				_ => { rec.oracle_fail(format!("unexpected routing at hop {} of {}", j, what)); break; },
+			}
+		}
+	}
+}
+
 fn main() {
 	let args = &parse_args("c14");
 	let mut rec = Rec::new(&args.out, "c14");
@@ -267,6 +514,7 @@ fn main() {
 	let mut max_hops_seen = 0usize;
 
 	boundary_section(&ctx, &mut rng, &mut rec, args.thorough);
+	blinded_section(&ctx, &mut rng, &mut rec, args.thorough, args.scale);
 
 	for r in 0..n_routes {
 		// ---- choose a route: random length, or the longest that fits (N), or N+1 (oversize) -----
@@ -282,7 +530,7 @@ fn main() {
 				let mut n_fit = 0;
 				for n in (1..=want).rev() {
 					let p = Path { hops: c.path.hops[want - n..].to_vec(), blinded_tail: None };
-					if let Ok((pl, _, _)) = vh::payloads(&p, &c.rof, c.height, &c.keysend) { if pl.iter().map(|x| x.len() + 32).sum::<usize>() <= L { n_fit = n; break; } }
+					if let Ok(Ok((pl, _, _))) = guarded(AssertUnwindSafe(|| vh::payloads(&p, &c.rof, c.height, &c.keysend))) { if pl.iter().map(|x| x.len() + 32).sum::<usize>() <= L { n_fit = n; break; } }
 				}
 				let n = if mode < 2 { n_fit.max(1) } else { (n_fit + 1).min(want) };
 				c.path.hops = c.path.hops[want - n..].to_vec(); c.order = c.order[want - n..].to_vec();
@@ -291,7 +539,28 @@ fn main() {
 		};
 		let n = c.path.hops.len();
 		let ss = vh::shared_secrets(&ctx.secp, &c.path, &c.session);
-		let (payloads, _first_amt, _first_cltv) = match vh::payloads(&c.path, &c.rof, c.height, &c.keysend) { Ok(x) => x, Err(e) => { rec.discarded += 1; rec.notes.insert("discard".into(), format!("{:?}", e)); continue; } };
+		let (payloads, _first_amt, _first_cltv) = match guarded(AssertUnwindSafe(|| vh::payloads(&c.path, &c.rof, c.height, &c.keysend))) {
+			Ok(Ok(x)) => x,
+			Ok(Err(e)) => { rec.discarded += 1; rec.notes.insert("discard".into(), format!("{:?}", e)); continue; },
+			Err(p) => { rec.oracle_fail(format!("sender panicked while building the onion payloads (route {}: {} hops, keysend {}, custom TLV types {:?}): {}", r, n, c.keysend.is_some(), c.rof.custom_tlvs().iter().map(|x| x.0).collect::<Vec<_>>(), p)); continue; },
+		};
+		// payload encoders (unblinded kinds): what was ASKED vs the bytes the real encoder wrote
+		if r % 2 == 0 {
+			for i in 0..n {
+				check_payload_order(&mut rec, &format!("route {} hop {}", r, i), &payloads[i]);
+				let amt: u64 = c.path.hops[i + 1..].iter().map(|h| h.fee_msat).sum();
+				let cltv: u32 = c.height + c.path.hops[i + 1..].iter().map(|h| h.cltv_expiry_delta).sum::<u32>();
+				if i + 1 < n {
+					rec.case(&payload_op("onion.Forward", &[("short_channel_id", Some(c.path.hops[i + 1].short_channel_id.to_be_bytes().to_vec())), ("amt_to_forward", Some(tu(amt))), ("outgoing_cltv_value", Some(tu(cltv as u64)))], &[]), &format!("{} inc=1", hex(&payloads[i])), "payload:forward", true);
+				} else {
+					let last = &c.path.hops[n - 1];
+					let pd = c.rof.payment_secret.map(|s| { let mut v = s.0.to_vec(); v.extend(tu(c.rof.total_mpp_amount_msat)); v });
+					rec.case(&payload_op("onion.Receive", &[("payment_data", pd), ("payment_metadata", c.rof.payment_metadata.clone()), ("keysend_preimage", c.keysend.map(|p| p.0.to_vec())),
+						("sender_intended_htlc_amt_msat", Some(tu(last.fee_msat))), ("cltv_expiry_height", Some(tu((c.height + last.cltv_expiry_delta) as u64)))], c.rof.custom_tlvs()),
+						&format!("{} inc=1", hex(&payloads[i])), if c.keysend.is_some() { "payload:receive:keysend" } else { "payload:receive" }, true);
+				}
+			}
+		}
 		let total: usize = payloads.iter().map(|p| p.len() + 32).sum();
 		let built = guarded(AssertUnwindSafe(|| create_payment_onion(&ctx.secp, &c.path, &c.session, &c.rof, c.height, &c.hash, &c.keysend, None, c.seed)));
 		let mut op = format!("build std {} {} {}", hex(&c.seed), hex(&c.hash.0), n);
@@ -412,7 +681,10 @@ fn main() {
 				attr = Some(vh::process_fulfill_attribution_data(attr, &ss[j], holds[j]));
 				if model_too { rec.case(&format!("fulfilwrapx {} {} {}", hex(&ss[j]), before, holds[j]), &enc(&attr), "attr:fulfil-wrap", true); }
 			}
-			let got = vh::decode_fulfill_attribution_data(&ctx.secp, &NullLogger, &c.path, &c.session, attr.clone().unwrap());
+			let got = match guarded(AssertUnwindSafe(|| vh::decode_fulfill_attribution_data(&ctx.secp, &NullLogger, &c.path, &c.session, attr.clone().unwrap()))) {
+				Ok(g) => g,
+				Err(p) => { rec.oracle_fail(format!("sender panicked while decoding the fulfil attribution data of route {} ({} hops, hold times {:?}): {}", r, n, holds, p)); continue; },
+			};
 			if model_too { let mut f = format!("fulfildecodex {}", n); for x in &ss { f.push_str(&format!(" {}", hex(x))); } rec.case(&format!("{} {}", f, enc(&attr)), &format!("holds={}", hs(&got)), "attr:fulfil-decode", true); }
 			if got[..] != holds[..n.min(20)] { rec.oracle_fail(format!("fulfil hold times of route {} ({} hops): got {:?} expected {:?}", r, n, got, holds)); }
 			*rec.classes.entry("real-only:fulfil-hold-times".into()).or_insert(0) += 1;
@@ -420,7 +692,10 @@ fn main() {
 			use lightning::util::ser::{Readable, Writeable};
 			let mut bytes = attr.unwrap().encode(); let bit = rng.below(8 * bytes.len() as u64) as usize; flip(&mut bytes, bit);
 			if let Ok(bad) = <lightning::ln::onion_utils::AttributionData as Readable>::read(&mut &bytes[..]) {
-				let got2 = vh::decode_fulfill_attribution_data(&ctx.secp, &NullLogger, &c.path, &c.session, bad.clone());
+				let got2 = match guarded(AssertUnwindSafe(|| vh::decode_fulfill_attribution_data(&ctx.secp, &NullLogger, &c.path, &c.session, bad.clone()))) {
+					Ok(g) => g,
+					Err(p) => { rec.oracle_fail(format!("sender panicked while decoding corrupted fulfil attribution data of route {} ({} hops): {}", r, n, p)); continue; },
+				};
 				if model_too { let mut f = format!("fulfildecodex {}", n); for x in &ss { f.push_str(&format!(" {}", hex(x))); } rec.case(&format!("{} {}", f, enc(&Some(bad))), &format!("holds={}", hs(&got2)), "attr:fulfil-decode-corrupt", true); }
 				if got2.len() > n.min(20) || got2[..] != holds[..got2.len()] && got2.len() == n.min(20) { rec.oracle_fail(format!("corrupted fulfil attribution data accepted in full with other hold times (route {})", r)); }
 				*rec.classes.entry("real-only:fulfil-corrupt".into()).or_insert(0) += 1;
